@@ -85,6 +85,9 @@ func (p c04) reprepared(c *core.Ctx) {
 			c.Fail("", fmt.Sprintf("the creation of %q had completed and published %p; after the factory was prepared and refreshed again a lookup returns %p (error: %v)", name, f, o, err), detail)
 			return
 		}
+		if _, had := first[name]; !had {
+			continue // (its creation had not completed before: a later attempt legitimately runs its callbacks again)
+		}
 		if n := countEvents(r, "init", name) + countEvents(r, "aps", name); n != inits[name] {
 			c.Fail("", fmt.Sprintf("the finished singleton %q was initialised again after the factory was prepared and refreshed a second time (%d -> %d callbacks)", name, inits[name], n), detail)
 			return
